@@ -619,4 +619,21 @@ impl<T: Deref<Target = [Cell<Value>]>> ReadHandle<'_, T> {
         to_set.set(Value::stale());
         was_stale
     }
+
+    /// Overwrite the contents of `row` with `vals`.
+    ///
+    /// # Safety
+    /// The same requirements as [`ReadHandle::set_stale_shared`] apply: there must be no
+    /// concurrent reads or writes to `row`, and `row` must be in bounds of the initial vector or
+    /// of a previously completed write. `vals` must have the arity of the buffer.
+    pub(crate) unsafe fn write_row_shared(&self, row: RowId, vals: &[Value]) {
+        debug_assert_eq!(vals.len(), self.buf.n_columns);
+        let cells: &[Cell<Value>] = &self.data;
+        let cell_ptr: *const Cell<Value> = cells.as_ptr();
+        for (i, val) in vals.iter().enumerate() {
+            let to_set: &Cell<Value> =
+                unsafe { &*cell_ptr.add(row.index() * self.buf.n_columns + i) };
+            to_set.set(*val);
+        }
+    }
 }
